@@ -564,6 +564,8 @@ class Sym:
                 return None
             if str(n.get("qn", "")).endswith("::eps") and "Constants<double>" in str(n.get("qn")):
                 return Aff(Fraction(100, 2 ** 52))
+            if str(n.get("qn", "")).endswith("::eps_sqrt") and "Constants<double>" in str(n.get("qn")):
+                return Aff(Fraction(10, 2 ** 26))      # csqrt(100 * 2^-52), exactly representable
             return TOP
         if k in ("CXXFunctionalCastExpr", "CXXStaticCastExpr", "CStyleCastExpr", "CXXConstCastExpr"):
             return self.ev((n.get("ch") or [None])[0], env)
